@@ -22,7 +22,7 @@ use std::sync::mpsc::{channel, Receiver, Sender};
 // ---------------------------------------------------------------------------
 
 /// Failing table calls with distinct descriptions.
-pub const FAIL_KINDS: usize = 4;
+pub const FAIL_KINDS: usize = 7;
 
 fn fail_call(t: &FnTable, pp: &mut ParsedPacket, kind: usize, err: &mut *const CErr) -> i32 {
     unsafe {
@@ -43,10 +43,27 @@ fn fail_call(t: &FnTable, pp: &mut ParsedPacket, kind: usize, err: &mut *const C
                 let text = b"this is not a record\0";
                 (t.add_to_answer)(pp as *mut ParsedPacket, err as *mut *const CErr, text.as_ptr() as *const libc::c_char)
             }
-            _ => {
+            3 => {
                 // second question
                 let text = b"q.example. 1 IN A 1.2.3.4\0";
                 (t.add_to_question)(pp as *mut ParsedPacket, err as *mut *const CErr, text.as_ptr() as *const libc::c_char)
+            }
+            4 => {
+                let mut out = [0u8; 256];
+                let mut len: libc::size_t = 0;
+                let name = [b'y'; 254];
+                (t.raw_name_from_str)(&mut out, &mut len, err as *mut *const CErr, name.as_ptr() as *const libc::c_char, name.len())
+            }
+            5 => {
+                let mut out = [0u8; 256];
+                let mut len: libc::size_t = 0;
+                let name = [b'a', 0xc3, 0xa9];
+                (t.raw_name_from_str)(&mut out, &mut len, err as *mut *const CErr, name.as_ptr() as *const libc::c_char, name.len())
+            }
+            _ => {
+                // rename with an empty target name
+                let src_name = [1u8, b'a', 0];
+                (t.rename_with_raw_names)(pp as *mut ParsedPacket, err as *mut *const CErr, src_name.as_ptr(), 0, src_name.as_ptr(), src_name.len(), false)
             }
         }
     }
@@ -60,6 +77,9 @@ fn native_descriptions() -> Vec<String> {
     v.push(dgen::RR::from_string("this is not a record").unwrap_err().to_string());
     let mut pp = DNSSector::new(gens::golden_packets()[0].clone()).unwrap().parse().unwrap();
     v.push(pp.insert_rr_from_string(dnssector::constants::Section::Question, "q.example. 1 IN A 1.2.3.4").unwrap_err().to_string());
+    v.push(dgen::raw_name_from_str(&[b'y'; 254], None).unwrap_err().to_string());
+    v.push(dgen::raw_name_from_str(&[b'a', 0xc3, 0xa9], None).unwrap_err().to_string());
+    v.push(pp.rename_with_raw_names(&[], &[1, b'a', 0], false).unwrap_err().to_string());
     v
 }
 
@@ -71,7 +91,8 @@ enum Cmd {
 
 enum Reply {
     Failed(i32),
-    Desc(Option<String>),
+    /// (description retrieved now, content of the pointer retrieved at the first read after the last failure)
+    Desc(Option<String>, Option<String>),
 }
 
 struct Worker {
@@ -87,22 +108,29 @@ fn spawn_worker() -> Worker {
         let table = fn_table();
         let mut pp = DNSSector::new(gens::golden_packets()[0].clone()).unwrap().parse().unwrap();
         let mut err: *const CErr = std::ptr::null();
+        // the description "stays intact until that thread's next failure": the pointer handed out at
+        // the first read after a failure is kept and re-read at every later read
+        let mut kept: *const libc::c_char = std::ptr::null();
         while let Ok(cmd) = crx.recv() {
             match cmd {
                 Cmd::Fail(k) => {
                     let rc = fail_call(&table, &mut pp, k, &mut err);
+                    kept = std::ptr::null();
                     let _ = rtx.send(Reply::Failed(rc));
                 }
                 Cmd::Read => {
                     let d = if err.is_null() {
-                        None
+                        (None, None)
                     } else {
                         unsafe {
                             let p = (table.error_description)(err);
-                            Some(CStr::from_ptr(p).to_string_lossy().into_owned())
+                            if kept.is_null() {
+                                kept = p;
+                            }
+                            (Some(CStr::from_ptr(p).to_string_lossy().into_owned()), Some(CStr::from_ptr(kept).to_string_lossy().into_owned()))
                         }
                     };
-                    let _ = rtx.send(Reply::Desc(d));
+                    let _ = rtx.send(Reply::Desc(d.0, d.1));
                 }
                 Cmd::Quit => break,
             }
@@ -156,8 +184,18 @@ impl Arena {
             } else {
                 w.tx.send(Cmd::Read).map_err(|_| Failure::new("C16 worker-died", "send"))?;
                 match w.rx.recv() {
-                    Ok(Reply::Desc(got)) => {
+                    Ok(Reply::Desc(got, kept)) => {
                         let want = self.last[t].map(|k| self.desc[k].clone());
+                        ensure!(
+                            kept == want,
+                            "C16 retrieved-description-did-not-stay-intact",
+                            "thread {}: the description pointer retrieved earlier now reads {:?}, its most recent failure is {:?} (schedule {:?}, step {})",
+                            t,
+                            kept,
+                            want,
+                            sched,
+                            i
+                        );
                         ensure!(
                             got == want,
                             "C16 description-not-private-to-thread",
@@ -287,7 +325,7 @@ pub fn check_c16(ctx: &Ctx, known: &KnownFindings) -> Report {
     let prop = (200usize, c16_case);
     let r = drive(&prop, ctx.cases(20_000, 400_000), ctx, 16, &ks);
     rep.absorb(r);
-    rep.rule = "schedules = sequences of (thread, fail_k | read) executed exactly: each schedule thread is an OS thread that performs one table call per command received over a channel and replies before the next command is issued (the harness owns the interleaving). fail_k are four table calls failing with distinct descriptions (raw_name_from_str x2, add_to_answer, add_to_question); read = error_description(err) with that thread's err pointer. Oracle: model of per-thread last failure (descriptions taken from the native API); every read returns it. Exhaustive for 2 threads x 2 failure kinds x read up to the stated length; random for 3-4 threads, length <= 40. Non-trivial: a read whose thread's last failure precedes a failure on another thread.".into();
+    rep.rule = "schedules = sequences of (thread, fail_k | read) executed exactly: each schedule thread is an OS thread that performs one table call per command received over a channel and replies before the next command is issued (the harness owns the interleaving). fail_k are seven table calls failing with seven distinct descriptions (raw_name_from_str x4, add_to_answer, add_to_question, rename_with_raw_names); read = error_description(err) with that thread's err pointer. Oracle: model of per-thread last failure (descriptions taken from the native API); every read returns it. Exhaustive for 2 threads x 2 failure kinds x read up to the stated length; random for 3-4 threads, length <= 40. Non-trivial: a read whose thread's last failure precedes a failure on another thread.".into();
     rep.assumptions = vec!["interleavings are explored at the granularity of whole table calls (the property's own granularity); interleavings inside throw_err are not".into(), "a read before the thread's first failure is not judged (err pointer still NULL)".into()];
     rep.require(&["exhaustive-schedules", "threads:3", "threads:4", "read-after-foreign-failure"]);
     rep
